@@ -419,6 +419,24 @@ def F(id, sizes, dim=None, aux=(), anc=(), meas=(), fanc=(), ft=None, gm=(), sca
             "meas": list(meas), "fanc": list(fanc), "ft": ft, "gm": list(gm), "scalar": list(scalar), "cm": list(cm)}
 
 
+def compressed_corpus():
+    """the reported defects: equal list values on compressed axes (2,3) / (3,2); equal counts / indices with
+    different instance-level coordinates"""
+    d = lambda t: {"t": t, "b": None}
+    a = F(60001, [2, 2, 3], dim=[d(24), d(40), d(44)])
+    a["cmp"] = {"kind": "gath", "t": 2, "p": 1, "n": 2}
+    b = F(60002, [2, 3, 2], dim=[d(24), d(48), d(52)])
+    b["cmp"] = {"kind": "gath", "t": 2, "p": 1, "n": 2}
+    out = [{"fields": [a, b], "orders": [[0, 1], [1, 0]], "fam": "corpus-list-variable"}]
+    for kind in ("cont", "idx"):
+        a = F(60010 if kind == "cont" else 60020, [3, 3], dim=[None, None], aux=[{"ax": [0], "t": 80, "b": None}])
+        a["cmp"] = {"kind": kind, "t": 0}
+        b = F(60011 if kind == "cont" else 60021, [3, 3], dim=[None, None], aux=[{"ax": [0], "t": 84, "b": None}])
+        b["cmp"] = {"kind": kind, "t": 0}
+        out.append({"fields": [a, b], "orders": [[0, 1], [1, 0]], "fam": "corpus-" + kind + "-variable"})
+    return out
+
+
 def corpus():
     out = []
     # F09a: a later field's grid mapping (no coordinates listed) overwrote the datum of an
@@ -506,6 +524,84 @@ def bounds_family(rng, n):
     return out
 
 
+def g_cfield(sk):
+    c = sk["cmp"]
+    spec = {"gath": f"CGath {gz(c['t'])} {gnat(c.get('p', 0))} {gnat(c.get('n', 0))}",
+            "cont": f"CCont {gz(c['t'])}", "idx": f"CIdx {gz(c['t'])}"}[c["kind"]]
+    return f"(mkCF {g_field(sk)} (Some ({spec})))"
+
+
+LISTS = {0: [0, 2], 1: [1, 3], 2: [1, 2, 3]}
+COUNTS = {0: [2, 1, 3], 1: [1, 3, 2], 2: [2, 1], 3: [1, 2]}
+
+
+def compressed_family(rng, n):
+    """Fields stored compressed, 2-3 per case, all orderings: gathered fields with equal or different list
+    values whose compressed axes are the same, other axes of the same sizes, or axes of swapped sizes
+    ((2,3) against (3,2)); ragged fields (contiguous / indexed) with equal or different counts whose
+    instance-level coordinates are equal or different.  The compression variable may be shared only between
+    fields for which it refers to the same dimensions."""
+    out = []
+    fid = 70000
+    for j in range(n):
+        k = rng.choice([2, 2, 3])
+        fields = []
+        if rng.random() < 0.55:
+            lead = rng.choice([2, 3])
+            p = rng.choice([1, 1, 0])
+            lt0 = rng.choice([0, 1, 2])
+            shape0 = rng.choice([(2, 3), (3, 2), (2, 2), (3, 3)])
+            v0 = rng.choice([0, 1])
+            for i in range(k):
+                r = rng.random()
+                shape = shape0 if r < 0.45 else (shape0[::-1] if r < 0.8 else rng.choice([(2, 3), (3, 2), (2, 2)]))
+                lt = lt0 if rng.random() < 0.75 else rng.choice([0, 1, 2])
+                v = v0 if rng.random() < 0.6 else rng.choice([0, 1, 2])
+                cd = [{"t": tok(10, v), "b": None}, {"t": tok(11, v), "b": rng.choice([None, None, 4])}]
+                ld = {"t": tok(6, rng.choice([0, 0, 1])), "b": None} if rng.random() < 0.8 else None
+                sizes = ([lead] + list(shape)) if p == 1 else (list(shape) + [lead])
+                dim = ([ld] + cd) if p == 1 else (cd + [ld])
+                aux = [{"ax": [0 if p == 1 else 2], "t": tok(20, rng.choice([0, 1])), "b": None}] \
+                    if rng.random() < 0.4 else []
+                sk = F(fid, sizes, dim=dim, aux=aux)
+                sk["cmp"] = {"kind": "gath", "t": lt, "p": p, "n": 2}
+                fields.append(sk)
+                fid += 1
+            fam = "gathered"
+        else:
+            ct0 = rng.choice([0, 1, 2, 3])
+            at0 = tok(20, rng.choice([0, 1]))
+            kind0 = rng.choice(["cont", "idx"])
+            for i in range(k):
+                ct = ct0 if rng.random() < 0.75 else rng.choice([0, 1, 2, 3])
+                kind = kind0 if rng.random() < 0.85 else rng.choice(["cont", "idx"])
+                at = at0 if rng.random() < 0.45 else tok(rng.choice([20, 21]), rng.choice([0, 1, 2]))
+                counts = COUNTS[ct]
+                aux = [{"ax": [0], "t": at, "b": None}]
+                if rng.random() < 0.3:
+                    aux.append({"ax": [0], "t": tok(22, rng.choice([0, 1])), "b": None})
+                sk = F(fid, [len(counts), max(counts)], dim=[None, None], aux=aux)
+                sk["cmp"] = {"kind": kind, "t": ct}
+                fields.append(sk)
+                fid += 1
+            fam = "ragged"
+        for f in fields:
+            normalise(rng, f)
+        out.append({"fields": fields, "orders": [list(q) for q in itertools.permutations(range(k))],
+                    "fam": "compressed-" + fam})
+    return out
+
+
+def geometry_cases():
+    """example field 6 (geometry: node count, part node count, interior ring) against variants with the same
+    counts and other node coordinates / other instance-level coordinates; oracle only"""
+    out = []
+    for j, var in enumerate([[], ["nodes"], ["inst"], ["nodes", "inst"]]):
+        out.append({"fields": [{"id": 9100 + 2 * j, "ex": 6}, {"id": 9101 + 2 * j, "ex": 6, "exvar": var or ["same"]}],
+                    "orders": [[0, 1], [1, 0]], "fam": "geometry-variants"})
+    return out
+
+
 # ---- oracle helpers -----------------------------------------------------------
 def descriptors(sk, fview):
     """netCDF variable name -> list of (kind, token, bounds token, shape) held for this field"""
@@ -571,6 +667,8 @@ def nontrivial(case):
         for k in ("aux", "anc", "meas", "fanc", "scalar"):
             s |= {(k if k != "anc" else "aux", it["t"], it.get("b")) for it in sk.get(k, [])}
         s |= {("gm", g["cc"], g["d"]) for g in sk.get("gm", [])}
+        if sk.get("cmp") is not None:
+            s.add(("cmp", sk["cmp"]["kind"], sk["cmp"]["t"]))
         ds.append(s)
     return any(ds[i] & ds[j] for i in range(len(ds)) for j in range(i + 1, len(ds)))
 
@@ -579,8 +677,9 @@ def nontrivial(case):
 def run(chk, model_ok):
     rng = chk.rng
     thorough = chk.tier == "thorough"
-    ncases = 3600 if thorough else 170
-    cases = corpus() + example_cases(rng, thorough) + bounds_family(rng, 400 if thorough else 24)
+    ncases = 3600 if thorough else 140
+    cases = corpus() + compressed_corpus() + example_cases(rng, thorough) + geometry_cases() + \
+        bounds_family(rng, 400 if thorough else 24) + compressed_family(rng, 500 if thorough else 36)
     fid = 100
     for n in range(ncases):
         allow = rng.random() < 0.06
@@ -608,6 +707,7 @@ def run(chk, model_ok):
     stats = {"orderings": 0, "fields_written": 0, "shared_variables": 0, "single_unfaithful": 0,
              "write_errors": 0, "with_domain": 0, "families": {}, "sizes": {}, "features": {}}
     lits, lit_src = [], []
+    clits, clit_src = [], []
     conflict_queries = []      # (case index, failure records) classified by the model afterwards
     pending = []
     for ci, (c, r) in enumerate(zip(cases, rows)):
@@ -617,6 +717,7 @@ def run(chk, model_ok):
         stats["families"][c["fam"]] = stats["families"].get(c["fam"], 0) + 1
         stats["sizes"][len(sks)] = stats["sizes"].get(len(sks), 0) + 1
         isex = any(sk.get("ex") is not None for sk in sks)
+        iscmp = any(sk.get("cmp") is not None for sk in sks)
         for sk in sks:
             if sk.get("ex") is not None:
                 stats["features"]["example_field"] = stats["features"].get("example_field", 0) + 1
@@ -626,6 +727,9 @@ def run(chk, model_ok):
                     stats["features"][k] = stats["features"].get(k, 0) + 1
             if sk.get("ft"):
                 stats["features"]["ft"] = stats["features"].get("ft", 0) + 1
+            if sk.get("cmp") is not None:
+                kk = "compressed_" + sk["cmp"]["kind"]
+                stats["features"][kk] = stats["features"].get(kk, 0) + 1
             if sk.get("gattr") is not None:
                 stats["features"]["forced_global_attribute"] = stats["features"].get("forced_global_attribute", 0) + 1
             if any(it is not None and it.get("b") is not None for it in sk["dim"] + sk["aux"]):
@@ -685,10 +789,26 @@ def run(chk, model_ok):
                                               f"netCDF variable {name} holds unequal constructs {d1} (field {sks[k1]['id']}) "
                                               f"and {d2} (field {sks[k2]['id']})"))
                                 break
+            # compression variables: the variable a field uses must refer to the field's own dimensions
+            if iscmp and "cfile" in o:
+                for k, cv in zip(order, o["cfile"]):
+                    if "err" in cv or cv.get("meaning") is None or any(x is None for x in cv.get("own", [None])):
+                        continue
+                    if cv["meaning"] != cv["own"]:
+                        fails.append(("compression-variable-refers-to-other-dimensions",
+                                      f"field id {sks[k]['id']}: its {sks[k]['cmp']['kind']} compression variable {cv['cvar']} "
+                                      f"refers to {cv['meaning']}, the field's own coordinates are on {cv['own']}"))
+                if model_ok and all("err" not in cv and cv.get("cvar") is not None and cv.get("own")
+                                    and all(x is not None for x in cv["own"]) for cv in o["cfile"]):
+                    odims = number([cv["own"] for cv in o["cfile"]])
+                    ovars = number([[cv["cvar"]] for cv in o["cfile"]])
+                    clits.append(f"([{'; '.join(g_cfield(sks[k]) for k in order)}], {g_natlists(odims)}, "
+                                 f"[{'; '.join(gnat(x[0]) for x in ovars)}])")
+                    clit_src.append((ci, o))
             if fails:
                 pending.append((ci, o, fails))
             # correspondence literal
-            if model_ok and not hasdom and not isex and "file" in o and "per" in o and all("err" not in fv for fv in o["file"]):
+            if model_ok and not hasdom and not isex and not iscmp and "file" in o and "per" in o and all("err" not in fv for fv in o["file"]):
                 names = [flat_names(sks[k], fv) for k, fv in zip(order, o["file"])]
                 views = [p["view"] for p in o["per"]]
                 if any(n is None for n in names) or any(v is None for v in views):
@@ -706,7 +826,7 @@ def run(chk, model_ok):
     sig_of = {}
     if pending:
         qs = sorted({ci for ci, _, _ in pending
-                     if all(sk.get("ex") is None for sk in cases[ci]["fields"])})
+                     if all(sk.get("ex") is None and sk.get("cmp") is None for sk in cases[ci]["fields"])})
         flags = {}
         if model_ok:
             # (a domain is written through the same code: it takes part in the conflict like a field)
@@ -715,7 +835,7 @@ def run(chk, model_ok):
                                           chunk=100, defs=PERMS_DEF))
             flags = {ci: (i in bad) for i, ci in enumerate(qs)}
         for ci, o, fails in pending:
-            if any(sk.get("ex") is not None for sk in cases[ci]["fields"]):
+            if any(sk.get("ex") is not None or sk.get("cmp") is not None for sk in cases[ci]["fields"]):
                 conflict = False
             else:
                 conflict = flags.get(ci, may_conflict_ft(cases[ci]["fields"]))
@@ -731,6 +851,7 @@ def run(chk, model_ok):
 
     ncorr = 0
     n_guard = 0
+    n_ccorr = 0
     if model_ok:
         idx = [i for i, l in enumerate(lits) if l is not None]
         bad = set(lib.coq_bad_indices("C09", REQ, "check_case", [lits[i] for i in idx], chunk=150))
@@ -748,6 +869,19 @@ def run(chk, model_ok):
                              {"correspondence": "C09.Run.check_case",
                               "input": {"fields": [clean(f) for f in cases[ci]["fields"]], "order": o["order"]},
                               "observed": {"file": o.get("file"), "per": o.get("per")}})
+        # compression variables: sharing partition of list / count / index variables and of the dimensions
+        # they refer to (repaired rule)
+        cbad = set(lib.coq_bad_indices("C09", REQ, "check_ccase", clits, chunk=150)) if clits else set()
+        n_ccorr = len(clits)
+        for j in sorted(cbad):
+            ci, o = clit_src[j]
+            if (ci, tuple(o["order"])) in explained:
+                continue
+            chk.fail("correspondence", "model-vs-impl-compression",
+                     "model and implementation disagree on which fields share a list / count / index variable",
+                     {"correspondence": "C09.Run.check_ccase",
+                      "input": {"fields": [clean(f) for f in cases[ci]["fields"]], "order": o["order"]},
+                      "observed": {"cfile": o.get("cfile")}})
         # the composition theorem on the same cases: how many are under its hypotheses, and (a direct
         # reading of the theorem against the implementation) the read-back equals [map expected fs]
         sel = [lits[i] for i in idx]
@@ -794,7 +928,8 @@ def run(chk, model_ok):
                 "non-trivial = at least two of its fields have an equal construct descriptor (so something can be shared); "
                 "distinct = distinct canonical skeleton lists (ids removed)",
         "samples": [clean(f) for f in done[len(done) // 2][0]["fields"]][:2] if done else [],
-        "traces_validated_against_impl": ncorr,
+        "traces_validated_against_impl": ncorr + n_ccorr,
+        "compressed_orderings_through_correspondence": n_ccorr,
         "orderings_under_composition_theorem_hypotheses": n_guard,
         "disagreements_checked": ncorr,
         "cases": len(done),
